@@ -21,19 +21,28 @@ type fileSim struct {
 	Log    []PermRec
 	Steps  uint64
 
+	seed        uint64
+	coinRng     *RNG
+	coins       int
+	CoinLog     []int // ordinals of coins that came up true
+	replayCoins map[int]bool
+
 	fsPlan  *FSPlan
 	fsCalls int
 	fsFired bool
 }
 
 func newFileSim(mode string, seed uint64) *fileSim {
-	return &fileSim{Mode: mode, rng: NewRNG(seed)}
+	return &fileSim{Mode: mode, rng: NewRNG(seed), seed: seed}
 }
 
-func replaySim(perms []PermRec) *fileSim {
-	s := &fileSim{Mode: "replay", replay: map[int][]int{}}
+func replaySim(perms []PermRec, coins []int) *fileSim {
+	s := &fileSim{Mode: "replay", replay: map[int][]int{}, replayCoins: map[int]bool{}}
 	for _, p := range perms {
 		s.replay[p.Call] = p.P
+	}
+	for _, c := range coins {
+		s.replayCoins[c] = true
 	}
 	return s
 }
@@ -93,6 +102,34 @@ func (s *fileSim) FS(op, name string, size int) (int, error) {
 		partial = size * s.fsPlan.Part / 100
 	}
 	return partial, fsErr(s.fsPlan.Inject, name)
+}
+
+// Blocked: a single task waiting for a lock can never be released.
+func (s *fileSim) Blocked(what string) {
+	panic("sim: deadlock: the only task blocks in " + what)
+}
+
+// Coin: cooperative fault point; drawn from the run's PRNG (replay: recorded answers in order).
+func (s *fileSim) Coin(kind string) bool {
+	s.coins++
+	if s.Mode == "replay" {
+		if s.replayCoins[s.coins] {
+			s.CoinLog = append(s.CoinLog, s.coins)
+			return true
+		}
+		return false
+	}
+	if s.Mode == "identity" {
+		return false
+	}
+	if s.coinRng == nil {
+		s.coinRng = NewRNG(Mix(s.seed, 0xc01)) // own stream: coins never shift the map-order decisions
+	}
+	v := s.coinRng.Chance(0.5)
+	if v {
+		s.CoinLog = append(s.CoinLog, s.coins)
+	}
+	return v
 }
 
 var _ simhook.Sim = (*fileSim)(nil)
